@@ -286,4 +286,35 @@ example : (sliceStep [1, 2, 3, 4] 1 3 ([] : List Nat)).items = [1, 4] ∧
     (sliceStep [1, 2, 3, 4] 1 3 ([] : List Nat)).notifs.map (·.kind) = [.removeMany] ∧
     (sliceStep [1, 2, 3, 4] 2 2 [9]).notifs.map (·.kind) = [.add] ∧ (sliceStep [1, 2] 5 9 ([] : List Nat)).notifs = [] := by decide
 
+/-- **Extended slices** (`del l[a:b:k]`, `l[a:b:k] = ys`): the deletion pops the positions from the highest one down
+(one REMOVE each); the assignment is refused, silently for the observers, unless as many elements come in as leave, and
+otherwise reports what leaves and what comes in; in both cases the mirror ends with the slot's contents. -/
+theorem C05_ext_slice_del {α : Type} [DecidableEq α] (l m : List α) (a b k : Nat) (h : Same .list l m) :
+    Same .list (delExtStep l a b k).items (replay false m (delExtStep l a b k).notifs) :=
+  delExt_mirror l m a b k h
+
+theorem C05_ext_slice_set {α : Type} [DecidableEq α] (l m : List α) (a b k : Nat) (ys : List α) (h : Same .list l m) :
+    Same .list (setExtStep l a b k ys).items (replay false m (setExtStep l a b k ys).notifs) :=
+  setExt_mirror l m a b k ys h
+
+theorem C05_ext_slice_refused {α : Type} [DecidableEq α] (l : List α) (a b k : Nat) (ys : List α)
+    (h : (setExtStep l a b k ys).raised = true) : (setExtStep l a b k ys).notifs = [] ∧ (setExtStep l a b k ys).items = l := by
+  unfold setExtStep at h ⊢
+  split
+  · simp [SOut.err]
+  · rename_i h'; simp [h'] at h
+
+/-- **`l *= n`** is `clear()` or `extend(copies)`: an instance of `C05_mirror`. -/
+theorem C05_imul {α : Type} [DecidableEq α] (l : List α) (n : Int) (h0 : Same .list l l) :
+    Same .list (slotRun .list (imulOps l n) l).1 (replay false l (slotRun .list (imulOps l n) l).2) :=
+  C05_mirror .list (imulOps l n) l h0
+
+example : (delExtStep [1, 2, 3, 4, 5] 0 5 2).items = [2, 4] ∧
+    (delExtStep [1, 2, 3, 4, 5] 0 5 2).notifs.map (·.old) = [[5], [3], [1]] ∧
+    (setExtStep [1, 2, 3, 4] 0 4 2 [7, 8]).items = [7, 2, 8, 4] ∧
+    (setExtStep [1, 2, 3, 4] 0 4 2 [7, 8]).notifs.map (·.kind) = [.removeMany, .addMany] ∧
+    (setExtStep [1, 2, 3, 4] 0 4 2 [7]).raised = true ∧
+    (slotRun (α := Nat) .list (imulOps [1, 2] 3) [1, 2]).1 = [1, 2, 1, 2, 1, 2] ∧
+    (slotRun (α := Nat) .list (imulOps [1, 2] 0) [1, 2]).1 = [] := by decide
+
 end Py
